@@ -176,6 +176,9 @@ class Kernel:
 
     def call(self, name, args, in_loop, node):
         if name not in INTR:
+            if name in ("coerce", "one", "from", "splat") or name.endswith(("_set1_ps", "_set1_pd", "dupq_n_f32", "dupq_n_f64", "_set_ps", "_set_pd")):
+                raise LaneError("`%s(..)` introduces a constant into the sum: the kernels add products of waveform and filter samples only, starting from zero "
+                                "(a non-zero start value or bias does not cancel in floating point)" % name)
             raise LaneError("intrinsic %s is not in the transfer table (fail closed)" % name)
         kind, W = INTR[name]
         if kind == "zero":
@@ -620,6 +623,28 @@ def rule_dispatch(rep):
         ms = ir.calls(cfn["body"], "make_sincs")
         ok = len(ms) == 1 and [nbit(a) for a in ms[0]["args"]] == pn and nbit(inits.get("length")) == pn[0] and nbit(inits.get("nbr_sincs")) == pn[1]
         rep.ob(R, "%s/table" % tname, ok, "constructor must call make_sincs(%s) and store length/nbr_sincs from the same arguments" % ", ".join(pn), loc(cfn))
+        # the table the kernel multiplies with is the table make_sincs computes *in the kernel's own sample type*, stored (or packed) unchanged:
+        # a table built in another precision, or post-processed, differs from the one the scalar kernel uses
+        tv = inits.get("sincs")
+        while tv is not None and tv.get("k") in ("unsafe", "block", "paren"):
+            if tv.get("k") == "unsafe":
+                tv = tv["body"]
+            elif tv.get("k") == "block" and len(tv.get("stmts", [])) == 1 and tv["stmts"][0].get("k") == "expr":
+                tv = tv["stmts"][0]["e"]
+            elif tv.get("k") == "paren":
+                tv = tv["e"]
+            else:
+                break
+        core = tv
+        if tv is not None and tv.get("k") == "call" and is_path(tv["f"]) and tv["f"]["p"].endswith("pack_sincs") and len(tv["args"]) == 1:
+            core = tv["args"][0]
+        gen = core["f"].get("g") if core is not None and core.get("k") == "call" and is_path(core["f"]) else None
+        gen_ok = gen in (None, [], "", "T", ["T"]) or str(gen).strip("<>[]'\" ") == "T"
+        okt = core is not None and core.get("k") == "call" and is_path(core["f"]) and core["f"]["p"].split("::")[-1] == "make_sincs" and gen_ok \
+            and [nbit(a) for a in core["args"]] == pn and ((core is tv) == (tname == "ScalarInterpolator"))
+        rep.ob(R, "%s/table-unchanged" % tname, okt,
+               "field `sincs` = %s ; must be %smake_sincs::<T>(%s)%s with nothing in between (same sample type as the kernel, no conversion or post-processing)"
+               % (show(inits.get("sincs") or {})[:110], "" if tname == "ScalarInterpolator" else "pack_sincs(", ", ".join(pn), "" if tname == "ScalarInterpolator" else ")"), loc(cfn))
         for g, f in (("len", "length"), ("nbr_sincs", "nbr_sincs")):
             m = facts.need_method(tname, g, "SincInterpolator")
             st = m["body"]["stmts"]
@@ -644,7 +669,7 @@ def run(rep):
     import C03
     rep.guarded("R-C03-guard", C03.rule_guard)
     rep.floor("R-C15-lanes", 6 * 9 + 7)
-    rep.floor("R-C15-dispatch", 2 + 4 * 3 + 3 * 2)
+    rep.floor("R-C15-dispatch", 4 + 2 + 4 * 3 + 3 * 2)
     rep.floor("R-C03-guard", 18)
     rep.extra["intrinsic_table"] = {k: list(v) for k, v in sorted(INTR.items())}
     rep.clause("R-C15-lanes", "for each of the 7 kernels: the products accumulated per iteration are wave[8k+i]·sinc[8k+i] for i = 0..7 each exactly once (lane i with lane i), "
